@@ -303,6 +303,35 @@ def rule_e(ctx: Context, R: Reporter):
                     msg=f"{f.short}: `{unparse(nd.stmt)}` evaluates to `{sp.simplify(got)}`, not the ESS of the (normalised) weights", key=f"trim-ess:{nd.stmt.targets[0].id}")
 
 
+def rule_e_logdomain(ctx: Context, R: Reporter):
+    """ESS routines that take log-weights exponentiate only max-shifted values
+    (`logw - max(logw)`): with the sign flipped the algebra still gives S1^2/S2
+    but the exponential overflows for large log-weights."""
+    from ..shift import ShiftInterp, p_const, shift
+
+    n = 0
+    for f in ess_fns(ctx):
+        p = f.params[0]
+        if "log" not in p:
+            continue
+        n += 1
+        si = ShiftInterp(lambda c, f=f: ctx.res.external_name(f, c), const_params={p: shift(p_const(1), ("S",))})
+        si.strict_exp = True
+        si.run(f.node)
+        seen = set()
+        for (node, t) in si.hazards:
+            k = norm_text(node)[:60]
+            if k in seen:
+                continue
+            seen.add(k)
+            R.check("C20.e", f"{f.short}: exponentials are taken of max-shifted log-weights only", False, f, node,
+                    msg=f"{f.short}: `{unparse(node)[:60]}` exponentiates a value of type {t!r} (not `logw - max(logw)`): ESS is still S1^2/S2 algebraically but the "
+                        f"exponential over/underflows for log-weights of large magnitude (ESS no longer in [1, N])", key=f"ess-exp-hazard:{f.short}")
+        if not si.hazards:
+            R.check("C20.e", f"{f.short}: exponentials are taken of max-shifted log-weights only", True, f, f.node, key=f"ess-exp-hazard:{f.short}")
+    R.analysed["C20.e:log_weight_ess_routines"] = n
+
+
 # ------------------------------------------------------------------ C20.f
 def rule_f(ctx: Context, R: Reporter, vf: FuncInfo):
     """Translation typing x -> x + t of the volume metric."""
@@ -339,7 +368,10 @@ def rule_f(ctx: Context, R: Reporter, vf: FuncInfo):
                 return "?"
             if isinstance(e.op, (ast.Add, ast.Sub)):
                 if l == "S" and r == "S":
-                    return "I" if isinstance(e.op, ast.Sub) else "?2"
+                    if isinstance(e.op, ast.Sub):
+                        return "I"
+                    problems.append((e, "sum of two translation-dependent values (x + mean instead of x - mean)"))
+                    return "?"
                 if "S" in (l, r):
                     return "S"
                 return "I"
@@ -358,6 +390,8 @@ def rule_f(ctx: Context, R: Reporter, vf: FuncInfo):
         if isinstance(e, ast.Call):
             name = ctx.res.external_name(vf, e) or ""
             ats = [ty(a) for a in e.args]
+            if any(a.startswith("?") for a in ats) and name not in ("numpy.ones", "numpy.eye", "numpy.zeros", "builtins.len"):
+                return "?"
             if name in ("numpy.asarray", "numpy.array", "numpy.sum", "numpy.mean", "numpy.average", "numpy.copy"):
                 return ats[0] if ats else "I"
             if name in ("numpy.dot", "numpy.matmul", "numpy.outer", "numpy.einsum", "numpy.multiply"):
@@ -481,6 +515,7 @@ def run(ctx: Context, R: Reporter):
     ef = [f for f in ess_fns(ctx) if "log" not in f.params[0]]
     R.guard(rule_d, ctx, R, [tf, vf] + ef)
     R.guard(rule_e, ctx, R)
+    R.guard(rule_e_logdomain, ctx, R)
     R.guard(rule_cov, ctx, R, [tf, vf] + ef)
     R.guard(rule_f, ctx, R, vf)
     R.guard(rule_g, ctx, R, vf)
